@@ -56,6 +56,23 @@
     bra half left (`normSq K3`) or right (`normSq' K3`): all calls succeed, the right-nested halves are
     `C04.Eqv` to the left-nested ones (S7 for chains under the weak guard, `chain_both`), every final
     result has rank 0, no labels, the value `Σ|K3|²` (`full_congr`: congruence of the full contraction).
+  * `network_norm_chain3_any_mode` (scalars `AddCommMonoid`, `0·x = x·0 = 0`) — the halves route with
+    EVERY call in its own mode `md 0 … md 5` (`a·b`, `ā·b̄`, `(a·b)·c`, `(ā·b̄)·c̄`, the two final calls): all
+    calls succeed, both final results are rank-0 arrays without labels with the value `normSq K3` resp.
+    `normSq' K3` of the BLOCKWISE `K3 = (a·b)·c` [`TdotP.Pad` transfer; the weak guards of the later calls
+    from the frames of the intermediates: `chain_second_guard`, `full_guard_frames`];
+    `network_norm_chain3_auto`: all six calls in the default mode.
+  * CHAINS OF ANY LENGTH (`Assoc3P.Seg` = tensor with its left / right bond legs, `Assoc4P.LeafOK`,
+    `Assoc4P.Link` = weak guard between neighbours, `Assoc4P.evalL` = left-nested contraction,
+    `Assoc4P.STree` = bracketing tree; `braSeg S = ⟨braOf S.arr (S.l ++ S.r), S.l, S.r⟩`):
+    `chain_conj` — the induction step/invariant: the left-nested contraction of the bra chain is
+    observationally `braOf` (open bond spared) of the left-nested contraction of the ket chain;
+    `network_norm_chain` — for a closed chain (first tensor without left bond, last without right bond):
+    `(bra chain)·(ket chain) = Σ|K|²` in both operand orders, rank 0, no labels, `K`'s labels a permutation
+    of all labels;
+    `network_norm_chain_bracketings` (scalars `AddCommMonoid`, `AssocLaws`) — the same with the ket chain
+    contracted along ANY bracketing tree `t` and the bra chain along ANY bracketing tree `tb`
+    (`C04.chain_bracketing` + `full_congr`).
   * `chain3_needs_sparing` — negative control: flipping ALSO the bra-like bond leg of `b̄` towards `c`
     (`braOf b xb1` instead of `braOf b (xb1 ++ xb2)`) gives `-106582` instead of `Σ|K3|² = 117734` on a
     concrete chain.
@@ -63,14 +80,13 @@
   NOT COVERED (remaining)
   * further routes of the three-tensor network: the nested
     routes that absorb the bra tensors one at a time (`c̄·(b̄·(ā·K3))`: needs the triangle S7 of C04 with
-    the frames of NormNet13/18), operand-swapped halves; fused / auto mode for the chain (transfer as in
-    part (3) with `TdotP.Pad`);
+    the frames of NormNet13/18), operand-swapped halves; fused / auto mode for the right-nested halves;
   * (2) bracketings of the two-tensor network that first contract a ket with a bra tensor
     (`(ā·a)·(b̄·b)`, `((ā·a)·b̄)·b`): not attempted;
   * the other sequential bracketings with mixed orders in any mode (same argument as `tw_cross_any_mode`
     with another triangle); `netLabelsB` for more than two labels per tensor.
 -/
-import SymmModel.Proofs.NetNorm8
+import SymmModel.Proofs.NetNorm11
 import SymmModel.Props.C10g
 
 namespace SymmModel.C10
@@ -533,5 +549,181 @@ def chainValsR (a b c : Arr Int) (xa xb1 xb2 xc : List Nat) : List Int :=
 
 example : chainValsR C03.gA C03.gB gC [2] [0] [2] [0] = [117734, 117734, 0, 0] := by
   decide +kernel
+
+/-! ### the chain in any mode -/
+
+/-- two arrays (of any mode) whose un-pruned table frames are leg-wise opposite satisfy the weak guard
+    over all legs -/
+theorem full_guard_frames {R : Type} {Z X : Arr R} {F G : List Index}
+    (hZ : List.Forall₂ SizeLe Z.indices G) (hX : List.Forall₂ SizeLe X.indices F)
+    (hFG : List.Forall₂ NormNet.Opp F G)
+    (hnZ : ∀ ix ∈ Z.indices, (ix.cm.map (·.1)).Nodup)
+    (hnF : ∀ ix ∈ F, (ix.cm.map (·.1)).Nodup) :
+    AssocP.contractibleCommonB Z X (List.range F.length) (List.range F.length) = true :=
+  NormNet.full_common hZ hX hFG hnZ hnF
+
+section chainM
+variable {R : Type} [AddCommMonoid R] [Mul R] [Neg R] [Conj R] [NetLaws R]
+
+/-- **network_norm_chain3_any_mode.**  The three-tensor chain conjugated tensor by tensor, halves
+    route, each of the six contraction calls in its own mode. -/
+theorem network_norm_chain3_any_mode (hz1 : ∀ x : R, 0 * x = 0) (hz2 : ∀ x : R, x * 0 = 0)
+    (a b c : Arr R) (xa xb1 xb2 xc : List Nat)
+    (ha : a.validB = true) (hb : b.validB = true) (hc : c.validB = true)
+    (hfa : a.fermi = true) (hfb : b.fermi = true) (hfc : c.fermi = true)
+    (hadm1 : AssocP.tdotAdmissibleCommonB a b xa xb1 = true)
+    (hadm2 : AssocP.tdotAdmissibleCommonB b c xb2 xc = true)
+    (hnd : (xb1 ++ xb2).Nodup)
+    (hoA : KetLabels a.oddpos) (hoB : KetLabels b.oddpos) (hoC : KetLabels c.oddpos)
+    (hd : ((a.oddpos ++ b.oddpos) ++ c.oddpos).Pairwise (fun x y => x.1 ≠ y.1))
+    (md : Nat → TdotMode) :
+    ∃ K2 K3 K2m Kb2m K3m Kb3m,
+      a.tensordotF b (.pair (xa.map Int.ofNat) (xb1.map Int.ofNat)) .blockwise = .ok K2
+      ∧ K2.tensordotF c (.pair ((AssocP.axesAB a.ndim b.ndim xa xb1 xb2).map Int.ofNat)
+          (xc.map Int.ofNat)) .blockwise = .ok K3
+      ∧ a.tensordotF b (.pair (xa.map Int.ofNat) (xb1.map Int.ofNat)) (md 0) = .ok K2m
+      ∧ (NormNet.braOf a xa).tensordotF (NormNet.braOf b (xb1 ++ xb2))
+          (.pair (xa.map Int.ofNat) (xb1.map Int.ofNat)) (md 1) = .ok Kb2m
+      ∧ K2m.tensordotF c (.pair ((AssocP.axesAB a.ndim b.ndim xa xb1 xb2).map Int.ofNat)
+          (xc.map Int.ofNat)) (md 2) = .ok K3m
+      ∧ Kb2m.tensordotF (NormNet.braOf c xc)
+          (.pair ((AssocP.axesAB a.ndim b.ndim xa xb1 xb2).map Int.ofNat)
+          (xc.map Int.ofNat)) (md 3) = .ok Kb3m
+      ∧ (∃ r, Kb3m.tensordotF K3m (allAxes K3.ndim) (md 4) = .ok r
+          ∧ r.ndim = 0 ∧ r.oddpos = [] ∧ r.elem [] [] = normSq K3)
+      ∧ (∃ r, K3m.tensordotF Kb3m (allAxes K3.ndim) (md 5) = .ok r
+          ∧ r.ndim = 0 ∧ r.oddpos = [] ∧ r.elem [] [] = normSq' K3) :=
+  NormNet.network_norm_chain3M hz1 hz2 a b c xa xb1 xb2 xc ha hb hc hfa hfb hfc hadm1 hadm2 hnd
+    hoA hoB hoC hd md
+
+/-- the default mode everywhere (`Chain3M` abbreviates the conclusion of
+    `network_norm_chain3_any_mode`) -/
+theorem network_norm_chain3_auto (hz1 : ∀ x : R, 0 * x = 0) (hz2 : ∀ x : R, x * 0 = 0)
+    (a b c : Arr R) (xa xb1 xb2 xc : List Nat)
+    (ha : a.validB = true) (hb : b.validB = true) (hc : c.validB = true)
+    (hfa : a.fermi = true) (hfb : b.fermi = true) (hfc : c.fermi = true)
+    (hadm1 : AssocP.tdotAdmissibleCommonB a b xa xb1 = true)
+    (hadm2 : AssocP.tdotAdmissibleCommonB b c xb2 xc = true)
+    (hnd : (xb1 ++ xb2).Nodup)
+    (hoA : KetLabels a.oddpos) (hoB : KetLabels b.oddpos) (hoC : KetLabels c.oddpos)
+    (hd : ((a.oddpos ++ b.oddpos) ++ c.oddpos).Pairwise (fun x y => x.1 ≠ y.1)) :
+    Chain3M a b c xa xb1 xb2 xc (fun _ => .auto) :=
+  NormNet.network_norm_chain3M hz1 hz2 a b c xa xb1 xb2 xc ha hb hc hfa hfb hfc hadm1 hadm2 hnd
+    hoA hoB hoC hd _
+
+end chainM
+
+example : Chain3M C03.gA C03.gB gC [2] [0] [2] [0] (fun _ => .auto) :=
+  network_norm_chain3_auto Int.zero_mul Int.mul_zero C03.gA C03.gB gC [2] [0] [2] [0]
+    (by decide +kernel) (by decide +kernel) (by decide +kernel) rfl rfl rfl
+    (admissible_weak (by decide +kernel) (by decide +kernel) rfl rfl (by decide +kernel))
+    (admissible_weak (by decide +kernel) (by decide +kernel) rfl rfl (by decide +kernel))
+    (by decide) (OneKet.ketLabels (Or.inr ⟨1, rfl⟩)) (OneKet.ketLabels (Or.inr ⟨3, rfl⟩))
+    (OneKet.ketLabels (Or.inr ⟨5, rfl⟩)) (by decide)
+
+/-- `((ā·b̄)·c̄)·((a·b)·c)` of a concrete chain with every call in mode `m`, and `normSq` of the
+    blockwise `(a·b)·c` -/
+def chainValsM (a b c : Arr Int) (xa xb1 xb2 xc : List Nat) (m : TdotMode) : List Int :=
+  let P (x y : List Nat) : AxesArg := .pair (x.map Int.ofNat) (y.map Int.ofNat)
+  let x2 := AssocP.axesAB a.ndim b.ndim xa xb1 xb2
+  match (do let k2 ← a.tensordotF b (P xa xb1) .blockwise; k2.tensordotF c (P x2 xc) .blockwise),
+      (do let k2 ← a.tensordotF b (P xa xb1) m; k2.tensordotF c (P x2 xc) m),
+      (do let kb2 ← (NormNet.braOf a xa).tensordotF (NormNet.braOf b (xb1 ++ xb2)) (P xa xb1) m
+          kb2.tensordotF (NormNet.braOf c xc) (P x2 xc) m) with
+  | .ok k3, .ok k3m, .ok kb3m =>
+    (match kb3m.tensordotF k3m (allAxes k3.ndim) m with
+     | .ok r => [r.elem [] [], normSq k3, (r.ndim : Int), (r.oddpos.length : Int)]
+     | .error _ => [])
+  | _, _, _ => []
+
+example : chainValsM C03.gA C03.gB gC [2] [0] [2] [0] .fused = [117734, 117734, 0, 0] := by
+  decide +kernel
+
+/-! ### chains of any length, any bracketing -/
+
+section nchain
+open SymmModel.Assoc3P SymmModel.Assoc4P
+variable {R : Type} [AddMonoid R] [Mul R] [Neg R] [Conj R] [NetLaws R]
+
+theorem braSeg_def (S : Seg R) :
+    NormNet.braSeg S = ⟨NormNet.braOf S.arr (S.l ++ S.r), S.l, S.r⟩ := rfl
+
+/-- **chain_conj.**  The induction behind the chain theorems: if `Sb` is observationally the bra tensor
+    of the ket piece `S` (open right bond spared), then contracting further tensors `ys` onto `S` and
+    their bra tensors onto `Sb` keeps this relation. -/
+theorem chain_conj (ys : List (Seg R)) (S Sb : Seg R) (H : NormNet.BraInv S Sb) (hlink : linked S ys)
+    (hket : ∀ y ∈ ys, KetLabels y.arr.oddpos)
+    (hd : (S.arr.oddpos ++ flatL ys).Pairwise (fun x y => x.1 ≠ y.1)) :
+    ∃ T Tb, evalL S ys = .ok T ∧ evalL Sb (ys.map NormNet.braSeg) = .ok Tb ∧ NormNet.BraInv T Tb
+      ∧ ((lastD S ys).r = [] → T.r = [])
+      ∧ T.arr.oddpos.Perm (S.arr.oddpos ++ flatL ys) :=
+  NormNet.chain_conj ys S Sb H hlink hket hd
+
+/-- **network_norm_chain.**  A chain of any length conjugated tensor by tensor, left-nested halves. -/
+theorem network_norm_chain (S : Seg R) (ys : List (Seg R)) (hS : LeafOK S) (hl : S.l = [])
+    (hlink : linked S ys) (hlast : (lastD S ys).r = [])
+    (hketS : KetLabels S.arr.oddpos) (hket : ∀ y ∈ ys, KetLabels y.arr.oddpos)
+    (hd : (S.arr.oddpos ++ flatL ys).Pairwise (fun x y => x.1 ≠ y.1)) :
+    ∃ T Tb, evalL S ys = .ok T ∧ evalL (NormNet.braSeg S) (ys.map NormNet.braSeg) = .ok Tb
+      ∧ ObsEq Tb.arr (T.arr.conjF true true)
+      ∧ T.arr.validB = true ∧ T.arr.fermi = true ∧ Tb.arr.validB = true ∧ Tb.arr.fermi = true
+      ∧ T.arr.oddpos.Perm (S.arr.oddpos ++ flatL ys)
+      ∧ Tb.arr.ndim = T.arr.ndim
+      ∧ (∃ r, Tb.arr.tensordotF T.arr (allAxes T.arr.ndim) .blockwise = .ok r
+          ∧ r.ndim = 0 ∧ r.oddpos = [] ∧ r.elem [] [] = normSq T.arr)
+      ∧ (∃ r, T.arr.tensordotF Tb.arr (allAxes T.arr.ndim) .blockwise = .ok r
+          ∧ r.ndim = 0 ∧ r.oddpos = [] ∧ r.elem [] [] = normSq' T.arr) :=
+  NormNet.network_norm_chain S ys hS hl hlink hlast hketS hket hd
+
+end nchain
+
+section nchainB
+open SymmModel.Assoc3P SymmModel.Assoc4P
+
+/-- **network_norm_chain_bracketings.**  Any bracketing `t` of the ket chain and any bracketing `tb` of
+    the bra chain. -/
+theorem network_norm_chain_bracketings {R : Type} [AddCommMonoid R] [Mul R] [Neg R] [Conj R]
+    [NetLaws R] [AssocP.AssocLaws R] (S : Seg R) (ys : List (Seg R)) (t tb : STree R)
+    (ht1 : t.first = S) (ht2 : t.rest = ys)
+    (hb1 : tb.first = NormNet.braSeg S) (hb2 : tb.rest = ys.map NormNet.braSeg)
+    (hS : LeafOK S) (hl : S.l = [])
+    (hlink : linked S ys) (hlast : (lastD S ys).r = [])
+    (hketS : KetLabels S.arr.oddpos) (hket : ∀ y ∈ ys, KetLabels y.arr.oddpos)
+    (hd : (S.arr.oddpos ++ flatL ys).Pairwise (fun x y => x.1 ≠ y.1)) :
+    ∃ T Tb T' Tb', evalL S ys = .ok T ∧ evalL (NormNet.braSeg S) (ys.map NormNet.braSeg) = .ok Tb
+      ∧ t.eval = .ok T' ∧ tb.eval = .ok Tb'
+      ∧ Assoc3P.Eqv T'.arr T.arr ∧ Assoc3P.Eqv Tb'.arr Tb.arr
+      ∧ ObsEq Tb.arr (T.arr.conjF true true)
+      ∧ (∃ r, Tb'.arr.tensordotF T'.arr (allAxes T.arr.ndim) .blockwise = .ok r
+          ∧ r.ndim = 0 ∧ r.oddpos = [] ∧ r.elem [] [] = normSq T.arr)
+      ∧ (∃ r, T'.arr.tensordotF Tb'.arr (allAxes T.arr.ndim) .blockwise = .ok r
+          ∧ r.ndim = 0 ∧ r.oddpos = [] ∧ r.elem [] [] = normSq' T.arr) :=
+  NormNet.network_norm_chain_bracketings S ys t tb ht1 ht2 hb1 hb2 hS hl hlink hlast hketS hket hd
+
+end nchainB
+
+/-- the chain `gA – gB – gC` as segments; the ket chain bracketed `a·(b·c)`, the bra chain `(ā·b̄)·c̄` -/
+def segA : Assoc3P.Seg Int := ⟨C03.gA, [], [2]⟩
+def segB : Assoc3P.Seg Int := ⟨C03.gB, [0], [2]⟩
+def segC : Assoc3P.Seg Int := ⟨gC, [0], []⟩
+def ketTree : Assoc4P.STree Int := .node (.leaf segA) (.node (.leaf segB) (.leaf segC))
+def braTree : Assoc4P.STree Int :=
+  .node (.node (.leaf (NormNet.braSeg segA)) (.leaf (NormNet.braSeg segB)))
+    (.leaf (NormNet.braSeg segC))
+
+example : ChainNormB segA [segB, segC] ketTree braTree :=
+  network_norm_chain_bracketings segA [segB, segC] ketTree braTree rfl rfl rfl rfl
+    ⟨by decide +kernel, rfl, by decide, by decide, by decide⟩ rfl
+    ⟨⟨rfl, by decide +kernel⟩, ⟨by decide +kernel, rfl, by decide, by decide, by decide⟩,
+      ⟨rfl, by decide +kernel⟩, ⟨by decide +kernel, rfl, by decide, by decide, by decide⟩, trivial⟩
+    rfl (OneKet.ketLabels (Or.inr ⟨1, rfl⟩))
+    (by
+      intro y hy
+      rcases List.mem_cons.mp hy with rfl | hy
+      · exact OneKet.ketLabels (Or.inr ⟨3, rfl⟩)
+      · rcases List.mem_cons.mp hy with rfl | hy
+        · exact OneKet.ketLabels (Or.inr ⟨5, rfl⟩)
+        · cases hy)
+    (by decide)
 
 end SymmModel.C10
